@@ -357,6 +357,118 @@ def _show(r):
     return "%s%s" % (r["k"], json.dumps(r["rows"]))
 
 
+# ----------------------------------------------------------------------------- compact edge dump
+# engine.graph.dump keeps every parsed edge (two full state records each) until the graph is built: ~10 KB per edge.  The
+# thorough graphs have several 100 000 edges, so the TLC output is parsed as a stream here into a graph with integer state
+# ids, the part of each state the driver looks at, and one shared object per distinct action label.
+class CompactGraph:
+    def __init__(self):
+        self.states = []      # id -> mini state
+        self.inits = []       # ids
+        self.edges = []       # (from id, act dict (shared), to id)
+        self.out = []         # id -> [edge index]
+        self.tlc = None
+
+
+def _mini(st):
+    """the part of a spec state the driver looks at (building the result, labels)"""
+    return {"cfg": st.get("cfg"), "rows": st["rows"], "state": st["state"], "pos": st["pos"], "fam": st["fam"],
+            "b": {"uniq": st["b"]["uniq"]}, "v": {"uniq": st["v"]["uniq"]}}
+
+
+def dump_compact(module, cfg_text, workdir, timeout=2400, heap="3g"):
+    """like engine.graph.dump (cfg must contain VIEW and ACTION_CONSTRAINT Emit, -workers 1), streaming"""
+    import shutil
+    import subprocess
+    import threading
+    from engine import tlc
+    os.makedirs(workdir, exist_ok=True)
+    sdir = os.path.join(workdir, "specs")
+    if os.path.isdir(sdir):
+        shutil.rmtree(sdir)
+    shutil.copytree(tlc.SPECS, sdir)
+    cfg = os.path.join(sdir, module + "_run.cfg")
+    with open(cfg, "w") as f:
+        f.write(cfg_text)
+    meta = os.path.join(workdir, "meta_%s_%d" % (module, int(time.time() * 1000) % 100000000))
+    cmd = ["java", "-XX:+UseParallelGC", "-XX:ParallelGCThreads=2", "-Xmx" + heap, "-cp", tlc.JAR + ":" + tlc.DEPS, "tlc2.TLC",
+           "-workers", "1", "-metadir", meta, "-noGenerateSpecTE", "-config", cfg, os.path.join(sdir, module + ".tla")]
+    env = dict(os.environ)
+    env.pop("JAVA_TOOL_OPTIONS", None)
+    g = CompactGraph()
+    r = tlc.Result()
+    r.cmd = " ".join(cmd)
+    ids, acts, tail = {}, {}, []
+    dumps = json.dumps
+
+    def sid(st):
+        k = dumps(st, sort_keys=True, separators=(",", ":"))
+        i = ids.get(k)
+        if i is None:
+            i = ids[k] = len(g.states)
+            g.states.append(_mini(st))
+            g.out.append([])
+        return i
+
+    t0 = time.time()
+    p = subprocess.Popen(cmd, cwd=sdir, env=env, stdout=subprocess.PIPE, stderr=subprocess.STDOUT, text=True, errors="replace")
+    killed = []
+    timer = threading.Timer(timeout, lambda: (killed.append(1), p.kill()))
+    timer.start()
+    try:
+        for line in p.stdout:
+            if line.startswith('"{'):
+                try:
+                    o = json.loads(json.loads(line))
+                except Exception:
+                    continue
+                if "init" in o:
+                    i = sid(o["init"])
+                    if i not in g.inits:
+                        g.inits.append(i)
+                elif "from" in o:
+                    act = o["act"]
+                    act["obs"] = o["obs"]
+                    ak = dumps(act, sort_keys=True)
+                    act = acts.setdefault(ak, act)
+                    f, t = sid(o["from"]), sid(o["to"])
+                    g.out[f].append(len(g.edges))
+                    g.edges.append((f, act, t))
+                continue
+            tail.append(line)
+            if len(tail) > 400:
+                del tail[:200]
+            m = tlc._RE_STATS.search(line)
+            if m:
+                r.generated, r.distinct = int(m.group(1)), int(m.group(2))
+                continue
+            m = tlc._RE_DEPTH.search(line)
+            if m:
+                r.depth = int(m.group(1))
+                continue
+            m = tlc._RE_INV.search(line)
+            if m:
+                r.violated = m.group(1)
+            elif ("is violated" in line or "was violated" in line or "were violated" in line) and r.violated is None:
+                r.violated = line.strip()
+        p.wait()
+    finally:
+        timer.cancel()
+        if p.poll() is None:
+            p.kill()
+        shutil.rmtree(meta, ignore_errors=True)
+    r.wall = time.time() - t0
+    out = "".join(tail)
+    r.stdout = out[-20000:]
+    if killed:
+        raise tlc.TLCError("TLC timeout after %ss: %s" % (timeout, r.cmd))
+    r.ok = "No error has been found" in out
+    if not r.ok and r.violated is None:
+        raise tlc.TLCError("TLC failed (exit %s):\n%s\ncmd: %s" % (p.returncode, "".join(tail[-40:]), r.cmd))
+    g.tlc = r
+    return g
+
+
 # ----------------------------------------------------------------------------- memo-aware tours
 # The row getters are memoized per Result object and dropped by the generative calls.  The documented behaviour does not
 # depend on that, so the spec state (of the base Result) does not carry it and an edge tour may reach `unique()` /
@@ -428,12 +540,6 @@ def slim(g, walks, uvals=()):
 
 def job_steps(job, cfg):
     return sum(len(w) for w in job["walks"].get(cfg, ()))
-
-
-def _mini(st):
-    """the part of a spec state the driver looks at (labels only)"""
-    return {"rows": st["rows"], "state": st["state"], "pos": st["pos"], "fam": st["fam"], "b": {"uniq": st["b"]["uniq"]},
-            "v": {"uniq": st["v"]["uniq"]}}
 
 
 def rerun(m):
@@ -586,14 +692,24 @@ def main(argv):
     purepy.install()
     with open(argv[1]) as f:
         spec = json.load(f)
-    jobs = {}
-    for gid, fn in spec["files"].items():
-        with open(fn, "rb") as f:
-            jobs[gid] = pickle.load(f)
     from sqlalchemy.engine import _result_cy, _row_cy
     compiled = bool(_result_cy._is_compiled() and _row_cy._is_compiled())
     t0 = time.time()
-    steps, nwalks, mism, per = replay(jobs, [tuple(x) for x in spec["plan"]])
+    steps = nwalks = 0
+    mism, per = [], {}
+    plan = [tuple(x) for x in spec["plan"]]
+    global _JOBS
+    for gid in sorted(set(it[0] for it in plan)):        # one graph in memory at a time
+        _JOBS = None
+        with open(spec["files"][gid], "rb") as f:
+            jobs = {gid: pickle.load(f)}
+        r = replay(jobs, [it for it in plan if it[0] == gid])
+        steps += r[0]
+        nwalks += r[1]
+        mism += r[2]
+        for k, v in r[3].items():
+            per[k] = per.get(k, 0) + v
+        del jobs
     with open(argv[2], "w") as f:
         json.dump({"compiled": compiled, "steps": steps, "walks": nwalks, "mismatches": mism[:2000], "nmismatches": len(mism),
                    "per_impl": per, "result_cy": _result_cy.__file__, "wall": round(time.time() - t0, 2)}, f)
